@@ -125,7 +125,9 @@ type Engine struct {
 	divCache     map[string][2]*smt.Term
 	constTables  map[string]bool
 	topFrameRule func(e *Engine, st *State, ref *smt.Term, kind string, pos string)
-	CheckNarrow  bool // emit 'narrow' obligations for value-changing integer conversions
+	CheckNarrow  bool      // emit 'narrow' obligations for value-changing integer conversions
+	OwnCheck     bool      // ownership discipline of deep copies (C17)
+	ownAlloc0    *smt.Term // allocation counter at entry
 	quiet        int
 	noAssume     int // inside quantifier bodies side facts would capture the bound variable
 	implQueries  map[string]types.Type
@@ -283,6 +285,14 @@ func (e *Engine) validSlice(st *State, v Val) *smt.Term {
 
 func (e *Engine) validIface(st *State, v Val) *smt.Term {
 	c := e.C
+	if e.OwnCheck {
+		e.note("interface-typed fields of copied structures do not hold typed nil pointers")
+		return c.And(
+			c.Op(">=", smt.Bool, v.Terms[0], c.IntLit(0)),
+			c.Op(">=", smt.Bool, v.Terms[1], c.IntLit(0)), c.Op("<", smt.Bool, v.Terms[1], st.Alloc),
+			c.Eq(c.Eq(v.Terms[0], c.IntLit(0)), c.Eq(v.Terms[1], c.IntLit(0))),
+		)
+	}
 	return c.And(
 		c.Op(">=", smt.Bool, v.Terms[0], c.IntLit(0)),
 		c.Op(">=", smt.Bool, v.Terms[1], c.IntLit(0)), c.Op("<", smt.Bool, v.Terms[1], st.Alloc),
